@@ -294,8 +294,8 @@ def compare_segment(sig: Sig, exp: Expected, seg: str) -> tuple[list[tuple[str, 
 # with blocks
 # ---------------------------------------------------------------------------
 WNAMES = ("v", "w")
-# per-tag options: list of (name, 'lit' | 'ref')   ('ref' = copy of the *other* name, which this
-# tag does not bind itself -- whether a tag's arguments see each other is not specified)
+# per-tag options: list of (name, 'lit' | 'ref')   ('ref' = copy of the *other* name as seen in the
+# enclosing scope)
 WITH_OPTIONS: tuple[tuple[tuple[str, str], ...], ...] = (
     (("v", "lit"),),
     (("v", "ref"),),
@@ -303,7 +303,17 @@ WITH_OPTIONS: tuple[tuple[tuple[str, str], ...], ...] = (
     (("w", "ref"),),
     (("v", "lit"), ("w", "lit")),
     (("w", "lit"), ("v", "lit")),
+    # sibling references: an argument expression names a name that the same tag also binds.  The
+    # statement makes the keyword arguments visible "only inside its block"; argument expressions are
+    # not inside the block, so they see the enclosing scope (both argument orders, and the swap).
+    (("v", "lit"), ("w", "ref")),
+    (("w", "ref"), ("v", "lit")),
+    (("w", "lit"), ("v", "ref")),
+    (("v", "ref"), ("w", "lit")),
+    (("v", "ref"), ("w", "ref")),
+    (("w", "ref"), ("v", "ref")),
 )
+N_PLAIN_OPTIONS = 6  # options without sibling references
 OUTER_KINDS = ("none", "global", "assign", "capture")
 Forest = tuple[Any, ...]  # tuple of nodes; node = (option index, Forest)
 
@@ -324,11 +334,16 @@ def _label(shape: Any, opts: Iterator[int]) -> Forest:
     return tuple((next(opts), _label(node, opts)) for node in shape)
 
 
-def forests(max_nodes: int) -> list[Forest]:
+def forests(max_nodes: int, sibling: bool = False) -> list[Forest]:
+    """Plain: every labelling with the first N_PLAIN_OPTIONS options.  ``sibling``: every labelling
+    with all options that uses at least one sibling-reference option (disjoint from the plain set)."""
     out: list[Forest] = []
+    nopts = len(WITH_OPTIONS) if sibling else N_PLAIN_OPTIONS
     for n in range(max_nodes + 1):
         for shape in forest_shapes(n):
-            for opts in itertools.product(range(len(WITH_OPTIONS)), repeat=n):
+            for opts in itertools.product(range(nopts), repeat=n):
+                if sibling and max(opts, default=0) < N_PLAIN_OPTIONS:
+                    continue
                 out.append(_label(shape, iter(opts)))
     return out
 
@@ -386,9 +401,12 @@ class WithEmitter:
                     args.append(f"{name}: '{val}'")
                     inner[name] = (val, "with:lit", self._clause("with:lit", shadowing))
                 else:
-                    o = other(name)  # evaluated in the enclosing scope; this tag does not bind `o`
+                    o = other(name)  # evaluated in the enclosing scope, also when this tag binds `o` too
                     args.append(f"{name}: {o}")
-                    inner[name] = (scope[o][0], "with:ref", self._clause("with:ref"))
+                    clause = self._clause("with:ref")
+                    if o in bound:
+                        clause = "args:sibling-not-visible-outside-block"
+                    inner[name] = (scope[o][0], "with:ref", clause)
             src += "{% with " + ", ".join(args) + " %}" + self.emit(kids, inner, probes) + "{% endwith %}"
             src += PROBE
             after = {}
